@@ -279,9 +279,49 @@ def truthy(x):
 def mk_ite(c, a, b):
     if isinstance(c, Const):
         return a if c.v else b
+    if isinstance(a, (Ite, Cmp, BoolT)):
+        a = assume(a, c, True)
+    if isinstance(b, (Ite, Cmp, BoolT)):
+        b = assume(b, c, False)
     if same(a, b):
         return a
+    if isinstance(a, Const) and isinstance(b, Const) and a.v is True and b.v is False:
+        return c
+    if isinstance(a, Const) and isinstance(b, Const) and a.v is False and b.v is True:
+        return mk_not(c)
     return Ite(c, a, b)
+
+
+def assume(t, c, truth, _d=0):
+    """Simplify term t knowing that boolean term c has the given truth value."""
+    if _d > 30:
+        return t
+    if isinstance(c, BoolT) and c.op == 'not':
+        return assume(t, c.args[0], not truth, _d)
+    if isinstance(t, Ite):
+        if same(t.cond, c):
+            return assume(t.a if truth else t.b, c, truth, _d + 1)
+        if isinstance(t.cond, BoolT) and t.cond.op == 'not' and same(t.cond.args[0], c):
+            return assume(t.b if truth else t.a, c, truth, _d + 1)
+        return mk_ite(assume(t.cond, c, truth, _d + 1), assume(t.a, c, truth, _d + 1),
+                      assume(t.b, c, truth, _d + 1))
+    if isinstance(t, (Cmp, BoolT)) and same(t, c):
+        return Const(truth)
+    if isinstance(t, Tup):
+        return Tup(tuple(assume(i, c, truth, _d + 1) for i in t.items), t.kind)
+    if isinstance(t, App):
+        return App(t.name, tuple(assume(a, c, truth, _d + 1) for a in t.args))
+    if isinstance(t, Cmp):
+        return Cmp(t.op, assume(t.lhs, c, truth, _d + 1), assume(t.rhs, c, truth, _d + 1))
+    if isinstance(t, BoolT):
+        return simp_bool(BoolT(t.op, tuple(assume(a, c, truth, _d + 1) for a in t.args)))
+    return t
+
+
+def assume_env(env, c, truth):
+    for k, v in list(env.items()):
+        if isinstance(v, (Ite, Tup, App, Cmp, BoolT)):
+            env[k] = assume(v, c, truth)
 
 
 # -------------------------------------------------------------- evaluator
@@ -566,6 +606,8 @@ class Evaluator:
                 return self.block(st.body if c.v else st.orelse, env, pc, fr)
             e1 = _copy_env(env)
             e2 = _copy_env(env)
+            assume_env(e1, c, True)
+            assume_env(e2, c, False)
             f1 = self.block(st.body, e1, pc + [c], fr)
             f2 = self.block(st.orelse, e2, pc + [mk_not(c)], fr)
             if f1 and f2:
@@ -835,6 +877,8 @@ class Evaluator:
             return BoolT('and' if isand else 'or', tuple(out))
 
     def compare(self, op, a, b):
+        if isinstance(a, Ite) and isinstance(b, Const):
+            return mk_ite(a.cond, self.compare(op, a.a, b), self.compare(op, a.b, b))
         if isinstance(op, (ast.Is, ast.IsNot)):
             pos = isinstance(op, ast.Is)
             if isinstance(a, Const) and isinstance(b, Const):
